@@ -177,8 +177,15 @@ func (prop) Generate(r *prng.Rand, phase string) any {
 	if phase == "random" {
 		n = r.Pick(3, 3, 2, 1) + 1
 	}
+	big := false
 	for i := 0; i < n; i++ {
 		g := cfg.GenAny(r)
+		if phase == "random" && i == 0 && r.Chance(0.004) {
+			// a coordinate array the size of an I/O block (and one more or less)
+			g = cfg.Big(r, 1+r.Intn(4))
+			g.S = mgeom.SRID(r)
+			big = true
+		}
 		if !s.Codec.EWKB && r.Chance(0.7) {
 			// plain WKB has no SRID field: the geometry's SRID (kept on the
 			// object in the other 30% of the runs) must simply not be written
@@ -202,11 +209,21 @@ func (prop) Generate(r *prng.Rand, phase string) any {
 	s.Read = simio.NoFault()
 	s.WriteFail.At = -1
 	if phase == "random" {
-		s.Read = GenReadPlan(r, 400)
+		span := 400
+		if big {
+			span = 8*4100 + 64
+		}
+		s.Read = GenReadPlan(r, span)
+		if big && r.Chance(0.5) {
+			s.Read.Default = []int{512, 1024, 4096, 0}[r.Intn(4)]
+		}
 		if r.Chance(0.5) {
 			s.WriteFail.On = true
 			s.WriteFail.Geom = r.Intn(n)
-			s.WriteFail.At = r.Intn(200)
+			s.WriteFail.At = r.Intn(span / 2)
+			if big {
+				s.WriteFail.Geom = 0
+			}
 			s.WriteFail.Short = r.Chance(0.5)
 			s.WriteFail.Transient = r.Chance(0.4)
 		}
